@@ -81,6 +81,22 @@ def r_kill_path(e, R):
             R.check(guarded, "R-KILL-PATH", f"{m.short}: a call without argument leaves the kill flag untouched", m.short, norm(n.ast),
                     "the manager's own flag_as_shutting_down() call resets kill_workers: a forced shutdown silently becomes a graceful one",
                     e.loc(m, n.ast))
+            # ... and nothing else decides whether the flag is taken: a forced shutdown requested after a graceful one
+            # (a watchdog escalating while another thread is blocked in shutdown(wait=True)) must still arm the kill flag
+            if okv:
+                others = [t for t in g.nodes if t.kind == "test" and (g.on_branch(n, t, "T") or g.on_branch(n, t, "F"))
+                          and not (none_test(t.ast) and isinstance(none_test(t.ast)[0], ast.Name) and none_test(t.ast)[0].id == n.ast.value.id)]
+                R.check(not others, "R-KILL-PATH", f"{m.short}: whether the kill flag is taken depends on the argument only", m.short,
+                        "control dependence of " + norm(n.ast), "the kill flag is stored only when `" + "`, `".join(norm(t.ast) for t in others) +
+                        "` has a particular value: a forced shutdown requested in another state (e.g. after a graceful shutdown began) is "
+                        "silently ignored and the caller waits for the running tasks", e.loc(m, others[0].ast if others else n.ast))
+        sds = [n for n in g.nodes if n.kind == "stmt" and isinstance(n.ast, ast.Assign) and isinstance(n.ast.targets[0], ast.Attribute)
+               and n.ast.targets[0].attr == "shutdown"]
+        for n in sds:
+            ctl = [t for t in g.nodes if t.kind == "test" and (g.on_branch(n, t, "T") or g.on_branch(n, t, "F"))]
+            R.check(not ctl and isinstance(n.ast.value, ast.Constant) and n.ast.value.value is True, "R-KILL-PATH",
+                    f"{m.short}: the shutdown flag is set unconditionally", m.short, norm(n.ast), "the shutdown flag is set only in some states",
+                    e.loc(m, n.ast))
     # (2) the manager's shutting-down routine
     f = None
     for q in a.manager_funcs:
